@@ -11,7 +11,7 @@ MODULES = ["GroupbyVerif.Props.C19"]
 RULE = ("STATIC: the effect table of every function of groupby_lib (local in-place writes, calls with per-parameter aliases) is re-extracted from the source "
         "and the Lean certificate check proves that no public entry point reaches a write through a parameter or into a state buffer. DYNAMIC: seeded random "
         "histories of 1-3 operations on one grouping (all GroupBy reductions incl. transform, var/std/median/quantile/apply/agg/ratio/subset_ratio/density, "
-        "cumulative, rolling, shift/diff, ema plain and timed, head/tail/nth, groups, group_nearby_members; crosstab, top-level ema/ema_grouped, nanops, "
+        "cumulative, rolling, shift/diff, ema plain and timed, head/tail/nth (n = 2 or n = number of rows: the identity selection), groups, group_nearby_members; crosstab, top-level ema/ema_grouped, nanops, "
         "factorize_1d/2d, monotonic / chunked key routes with thresholds scaled) x key containers {ndarray, strided view, pd.Series (indexed, arrow-backed), "
         "pd.Index, Categorical, pl.Series, pa.Array/ChunkedArray/Dictionary, zero-copy arrow over numpy, list} x value containers {ndarray, strided view, "
         "read-only ndarray, pd.Series, arrow-backed and chunked Series, pd.Index, pl.Series, pa arrays, zero-copy arrow over numpy, DataFrame, list, dict} x "
